@@ -70,9 +70,9 @@ Definition c15_ok (r : reg) (c : c15case) : bool :=
       res_matches (λ x y : list string * uc, list_eqb String.eqb x.1 y.1 && uc_eqb x.2 y.2)
                   (infer_base_unit r ord a) o
   | KCompact q o => rq_matches (to_compact r q) o
-  | KSimple d prefs o => res_matches (opt_eqb uc_eqb) (find_simple true r d prefs) o
-  | KPreferred q prefs mr o => rq_matches (to_preferred (λ _ _ _, mr) true r q prefs) o
-  | KIPreferred q prefs mr o => rq_matches (ito_preferred (λ _ _ _, mr) true r q prefs) o
-  | KAutoMul c a b mr o => rq_matches (auto_mul (λ _ _ _, mr) true r c a b) o
-  | KAutoDiv c a b mr o => rq_matches (auto_div (λ _ _ _, mr) true r c a b) o
+  | KSimple d prefs o => res_matches (opt_eqb uc_eqb) (find_simple false r d prefs) o
+  | KPreferred q prefs mr o => rq_matches (to_preferred (λ _ _ _, mr) false r q prefs) o
+  | KIPreferred q prefs mr o => rq_matches (ito_preferred (λ _ _ _, mr) false r q prefs) o
+  | KAutoMul c a b mr o => rq_matches (auto_mul (λ _ _ _, mr) false r c a b) o
+  | KAutoDiv c a b mr o => rq_matches (auto_div (λ _ _ _, mr) false r c a b) o
   end.
